@@ -15,6 +15,20 @@ theorem GFI.of_eq {p : Prog} {s s' : State} (hl : s'.log = s.log)
     (hv : ∀ i, (s'.get i).val = (s.get i).val) : GFI p s s' :=
   fun _ _ => StateGF.of_eq hl (SigEq.of_val (fun i _ _ => hv i))
 
+/-- the log-level "one run per change" relation, under its invariant -/
+def CRI (p : Prog) (s s' : State) : Prop := CInv p s → ChgRel p s s'
+
+theorem CRI.refl (p : Prog) (s : State) : CRI p s s := fun _ => ChgRel.refl p s
+theorem CRI.trans {p : Prog} {s s' s'' : State} (h1 : CRI p s s') (h2 : CRI p s' s'') : CRI p s s'' :=
+  fun hc => (h1 hc).trans (h2 (hc.step (h1 hc)))
+theorem CRI.of_same {p : Prog} {s s' : State} (hl : s'.log = s.log)
+    (hseen : ∀ w, (s'.get w).seen = (s.get w).seen) (hver : ∀ x, (s'.get x).ver = (s.get x).ver)
+    (hruns : ∀ w, (s'.get w).runs = (s.get w).runs) : CRI p s s' :=
+  fun _ => ChgRel.of_same hl hseen hver hruns
+theorem CRI.of_nodes {p : Prog} {s s' : State} (hn : s'.nodes = s.nodes) (hl : s'.log = s.log) : CRI p s s' := by
+  have g : ∀ i, s'.get i = s.get i := by intro i; simp only [State.get, hn]
+  exact CRI.of_same hl (fun w => by rw [g]) (fun w => by rw [g]) (fun w => by rw [g])
+
 /-- post-condition of `update_if_necessary` on node `m` -/
 structure UpdPost (p : Prog) (s : State) (m : Nat) (r : State × Bool) : Prop where
   inv : InvR p r.1
@@ -30,6 +44,7 @@ structure UpdPost (p : Prog) (s : State) (m : Nat) (r : State × Bool) : Prop wh
   runRel : RunRel s r.1
   ss : SrcStatic p s → SrcStatic p r.1
   gf : GFI p s r.1
+  cr : CRI p s r.1
 
 def UpdOK (p : Prog) (u : State → Nat → State × Bool) (f : Nat) : Prop :=
   ∀ s x, InvR p s → x < f → (s.get x).running = false → (∀ r, (s.get r).running = true → x < r) →
@@ -38,7 +53,8 @@ def UpdOK (p : Prog) (u : State → Nat → State × Bool) (f : Nat) : Prop :=
 theorem UpdPost.refl {p : Prog} {s : State} {m : Nat} (h : InvR p s)
     (hc : (s.get m).kind = .memo → (s.get m).st = .clean) : UpdPost p s m (s, false) :=
   ⟨h, Frame.refl s _, rfl, fun _ => rfl, hc, rfl, fun hc => (by cases hc), fun _ _ _ hd => .inl hd,
-   ValCh.of_val_eq (fun _ => rfl), RunRel.of_eq (fun _ => rfl), fun h => h, GFI.refl p s⟩
+   ValCh.of_val_eq (fun _ => rfl), RunRel.of_eq (fun _ => rfl), fun h => h, GFI.refl p s,
+   CRI.refl p s⟩
 
 /-- relation between the states before and after evaluating part of the body of the running memo `m` -/
 structure EvalPost (p : Prog) (s s' : State) (m : Nat) (L : List (Nat × Int × Nat)) : Prop where
@@ -54,11 +70,12 @@ structure EvalPost (p : Prog) (s s' : State) (m : Nat) (L : List (Nat × Int × 
   runRel : RunRel s s'
   ss : SrcStatic p s → SrcStatic p s'
   gf : GFI p s s'
+  cr : CRI p s s'
 
 theorem EvalPost.refl {p : Prog} {s : State} {m : Nat} (h : InvR p s) (hl : RunLoc s m) :
     EvalPost p s s m [] :=
   ⟨h, hl, Frame.refl s _, fun _ => rfl, rfl, rfl, by simp, ValCh.of_val_eq (fun _ => rfl), rfl,
-   RunRel.of_eq (fun _ => rfl), fun h => h, GFI.refl p s⟩
+   RunRel.of_eq (fun _ => rfl), fun h => h, GFI.refl p s, CRI.refl p s⟩
 
 theorem EvalPost.trans {p : Prog} {s s1 s2 : State} {m : Nat} {L1 L2}
     (h1 : EvalPost p s s1 m L1) (h2 : EvalPost p s1 s2 m L2) : EvalPost p s s2 m (L1 ++ L2) :=
@@ -66,7 +83,7 @@ theorem EvalPost.trans {p : Prog} {s s1 s2 : State} {m : Nat} {L1 L2}
    h2.subs.trans h1.subs, h2.ver.trans h1.ver, by rw [h2.seen, h1.seen, List.append_assoc],
    h1.valCh.trans h2.valCh h1.frame h2.frame h1.obs, h2.obs.trans h1.obs,
    h1.runRel.trans h2.runRel (fun i hi => (h1.frame.clean i hi).1) (fun i hi => (h2.frame.clean i hi).1),
-   fun h => h2.ss (h1.ss h), h1.gf.trans h2.gf⟩
+   fun h => h2.ss (h1.ss h), h1.gf.trans h2.gf, h1.cr.trans h2.cr⟩
 
 /-- appending a ghost `seen` entry to the running node -/
 theorem appendSeen_inv {p : Prog} {s : State} {m : Nat} (h : InvR p s) (hm : m < s.nodes.length)
@@ -190,6 +207,7 @@ structure ReadPost (p : Prog) (s s2 : State) (m x : Nat) (v : Int) : Prop where
   runRel : RunRel s s2
   ss : SrcStatic p s → SrcStatic p s2
   gf : GFI p s s2
+  cr : CRI p s s2
 
 theorem readNode_spec {p : Prog} {u : State → Nat → State × Bool} {f : Nat} (hu : UpdOK p u f)
     {m : Nat} (hmf : m ≤ f) {s : State} (h : InvR p s) (hl : RunLoc s m) {x : Nat} (hx : x < m)
@@ -226,7 +244,8 @@ theorem readNode_spec {p : Prog} {u : State → Nat → State × Bool} {f : Nat}
     have hs := h1.sigOk x hxp hk
     obtain ⟨v, hv⟩ := hs.2.2
     exact ⟨h1, f1, t.obs, t.running, t.kind m, t.sources_m, t.seen m, t.subs hxm m (Ne.symm hxm), t.ver m,
-      hs.1, by rw [hv]; rfl, ValCh.of_val_eq t.val, RunRel.of_eq t.runs, hss1, GFI.of_eq t.log t.val⟩
+      hs.1, by rw [hv]; rfl, ValCh.of_val_eq t.val, RunRel.of_eq t.runs, hss1, GFI.of_eq t.log t.val,
+      CRI.of_same t.log t.seen t.ver t.runs⟩
   | memo =>
     simp only
     have hp := hu s1 x h1 (by omega) hxnr (by
@@ -245,7 +264,7 @@ theorem readNode_spec {p : Prog} {u : State → Nat → State × Bool} {f : Nat}
       (ValCh.of_val_eq t.val).trans hp.valCh f1 (hp.frame.mono (by omega)) t.obs,
       (RunRel.of_eq t.runs).trans hp.runRel (fun i hi => by rw [t.st]; exact hi)
         (fun i hi => (hp.frame.clean i hi).1), fun h => hp.ss (hss1 h),
-      (GFI.of_eq t.log t.val).trans hp.gf⟩
+      (GFI.of_eq t.log t.val).trans hp.gf, (CRI.of_same t.log t.seen t.ver t.runs).trans hp.cr⟩
     · exact cf.2.2.1.trans t.sources_m
     · exact cf.2.2.2.2.2.2.1.trans (t.seen m)
     · exact cf.2.2.2.1.trans (t.subs hxm m (Ne.symm hxm))
@@ -256,14 +275,15 @@ theorem readNode_spec {p : Prog} {u : State → Nat → State × Bool} {f : Nat}
 theorem rd_evalPost {p : Prog} {s s2 : State} {m x : Nat} {v : Int} (hl : RunLoc s m)
     (hx : x < m) (rp : ReadPost p s s2 m x v) (ev : Ev) (hev : ∀ i, ev ≠ .unjust i)
     (hev' : ∀ i, ev ≠ .ran i)
-    (hg : WF p = true → MemoTracked p → GlitchFree p (envOf s2) [ev] (envOf s2)) :
+    (hg : WF p = true → MemoTracked p → GlitchFree p (envOf s2) [ev] (envOf s2))
+    (hcr : ChgRel p s2 ((s2.upd m fun n => { n with seen := n.seen ++ [(x, v, (s2.get x).ver)] }).emit ev)) :
     EvalPost p s ((s2.upd m fun n => { n with seen := n.seen ++ [(x, v, (s2.get x).ver)] }).emit ev) m
       [(x, v, (s2.get x).ver)] := by
   have hr2 : (s2.get m).running = true := by rw [rp.running]; exact hl.running
   have hm : m < s2.nodes.length := s2.lt_of_running hr2
   have hxm : x ≠ m := Nat.ne_of_lt hx
   have hinv := appendSeen_inv rp.inv hm (fun _ => hr2) (x, v, (s2.get x).ver) (Nat.le_refl _) ev
-  generalize hs' : ((s2.upd m fun n => { n with seen := n.seen ++ [(x, v, (s2.get x).ver)] }).emit ev) = s' at hinv
+  generalize hs' : ((s2.upd m fun n => { n with seen := n.seen ++ [(x, v, (s2.get x).ver)] }).emit ev) = s' at hinv hcr
   have gm : s'.get m = { s2.get m with seen := (s2.get m).seen ++ [(x, v, (s2.get x).ver)] } := by
     subst hs'; rw [State.emit_get, State.get_upd_same _ _ hm]
   have go : ∀ i, i ≠ m → s'.get i = s2.get i := by
@@ -332,7 +352,7 @@ theorem rd_evalPost {p : Prog} {s s2 : State} {m x : Nat} {v : Int} (hl : RunLoc
       · rw [go w hw] at hy; exact hy),
     fun hwf htr => (rp.gf hwf htr).trans ⟨[ev], hlog, by
       have := (hg hwf htr).append (.nil (SigEq.of_val (s := s2) (s' := s') (fun i _ _ => valE i)))
-      simpa using this⟩⟩
+      simpa using this⟩, rp.cr.trans (fun _ => hcr)⟩
   · refine ⟨hobs.trans (rp.obs.trans hl.obs), (kE m).trans (rp.kind_m.trans hl.kind), by rw [runE]; exact hr2,
       ?_, ?_, ?_⟩
     · intro r hr; rw [runE, rp.running] at hr; exact hl.lowest r hr
@@ -414,7 +434,8 @@ theorem rdU_evalPost {p : Prog} {u : State → Nat → State × Bool} {f : Nat} 
   refine ⟨inv3, ⟨hl.obs, cfk.trans hl.kind, hrun2, ?_, ?_, ?_⟩, fr, hrunE, cfsubs,
     cfver, by rw [List.append_nil]; exact cfseen, ?_, rfl, up.runRel, up.ss,
     fun hwf htr => ((StateGF.of_eq rfl (SigEq.refl _ _) : StateGF p s ({ s with obs := none } : State)).trans
-      (up.gf hwf htr)).trans (StateGF.of_eq rfl (SigEq.refl _ _))⟩
+      (up.gf hwf htr)).trans (StateGF.of_eq rfl (SigEq.refl _ _)),
+    ((CRI.of_nodes rfl rfl : CRI p s ({ s with obs := none } : State)).trans up.cr).trans (CRI.of_nodes rfl rfl)⟩
   · intro r hr; exact hl.lowest r (by rw [← hrunE]; exact hr)
   · show (s2.get m).sources = (s2.get m).seen.map (·.1)
     rw [cfsrc, cfseen]; exact hl.srcSeen
@@ -460,7 +481,15 @@ theorem evalE_spec {p : Prog} {u : State → Nat → State × Bool} {f : Nat} (h
         have hc := rp.inv.clean_correct hwf htr x hxp (by rw [rp.frame.kind]; exact hkx) rp.clean_x
         rw [rp.val_x] at hc
         exact .rdv (Option.some.inj hc).symm (.nil (SigEq.refl _ _))
-      exact ⟨_, [], rd_evalPost hl hb rp (.rdv m x v) (by intro i; simp) (by intro i; simp) hg, fun ρ hρ rest => by
+      have hm2 : m < s2.nodes.length := s2.lt_of_running (by rw [rp.running]; exact hl.running)
+      have hcr : ChgRel p s2
+          ((s2.upd m fun n => { n with seen := n.seen ++ [(x, v, (s2.get x).ver)] }).emit (.rdv m x v)) := by
+        refine ChgRel.of_rdv (w := m) (x := x) (v := v) rfl ?_ ?_ ?_ ?_
+        · rw [State.emit_get, State.get_upd_same _ _ hm2]
+        · intro i hi; rw [State.emit_get, State.get_upd_ne _ _ (Ne.symm hi)]
+        · intro i; rw [State.emit_get, State.get_upd]; split <;> rfl
+        · intro i; rw [State.emit_get, State.get_upd]; split <;> rfl
+      exact ⟨_, [], rd_evalPost hl hb rp (.rdv m x v) (by intro i; simp) (by intro i; simp) hg hcr, fun ρ hρ rest => by
         have := hρ _ List.mem_cons_self
         simp only [evalSnap, List.nil_append]
         rw [this]⟩
